@@ -1,6 +1,13 @@
 use crate::asn::Charset;
 use crate::asn::{Asn, Tag, TagProperty, Type};
 use crate::model::{Definition, Model};
+use std::cell::RefCell;
+use std::collections::HashMap;
+
+/// The tags resolved so far during one call, by module (its address) and type name. Without it, a type that
+/// is reachable on many paths (`C0 ::= CHOICE { a C1, b C1 }`, `C1 ::= CHOICE { a C2, b C2 }`, ...)
+/// is resolved once per path, which is exponential in the depth of such a chain.
+type Resolved = RefCell<HashMap<(usize, String), Option<Tag>>>;
 
 pub struct TagResolver<'a> {
     model: &'a Model<Asn>,
@@ -24,7 +31,7 @@ impl TagResolver<'_> {
     /// ITU-T X.680 | ISO/IEC 8824-1, 8.6
     /// ITU-T X.680 | ISO/IEC 8824-1, 41, table 8
     pub fn resolve_tag(&self, ty: &str) -> Option<Tag> {
-        self.resolve_tag_limited(ty, self.max_reference_depth())
+        self.resolve_tag_limited(ty, self.max_reference_depth(), &Resolved::default())
     }
 
     /// A chain of type references that is longer than the count of all definitions in scope must
@@ -38,7 +45,17 @@ impl TagResolver<'_> {
                 .sum::<usize>()
     }
 
-    fn resolve_tag_limited(&self, ty: &str, depth: usize) -> Option<Tag> {
+    fn resolve_tag_limited(&self, ty: &str, depth: usize, resolved: &Resolved) -> Option<Tag> {
+        let key = (self.model as *const Model<Asn> as usize, ty.to_string());
+        if let Some(tag) = resolved.borrow().get(&key) {
+            return *tag;
+        }
+        let tag = self.resolve_tag_uncached(ty, depth, resolved);
+        resolved.borrow_mut().insert(key, tag);
+        tag
+    }
+
+    fn resolve_tag_uncached(&self, ty: &str, depth: usize, resolved: &Resolved) -> Option<Tag> {
         self.model
             .imports
             .iter()
@@ -50,13 +67,13 @@ impl TagResolver<'_> {
                     model,
                     scope: self.scope,
                 }
-                .resolve_tag_limited(ty, depth.checked_sub(1)?)
+                .resolve_tag_limited(ty, depth.checked_sub(1)?, resolved)
             })
             .or_else(|| {
                 self.model.definitions.iter().find(|d| d.0.eq(ty)).and_then(
                     |Definition(_name, asn)| {
                         asn.tag
-                            .or_else(|| self.resolve_type_tag_limited(&asn.r#type, depth))
+                            .or_else(|| self.resolve_type_tag_limited(&asn.r#type, depth, resolved))
                     },
                 )
             })
@@ -73,10 +90,15 @@ impl TagResolver<'_> {
     /// ITU-T X.680 | ISO/IEC 8824-1, 8.6
     /// ITU-T X.680 | ISO/IEC 8824-1, 41, table 8
     pub fn resolve_type_tag(&self, ty: &Type) -> Option<Tag> {
-        self.resolve_type_tag_limited(ty, self.max_reference_depth())
+        self.resolve_type_tag_limited(ty, self.max_reference_depth(), &Resolved::default())
     }
 
-    fn resolve_type_tag_limited(&self, ty: &Type, depth: usize) -> Option<Tag> {
+    fn resolve_type_tag_limited(
+        &self,
+        ty: &Type,
+        depth: usize,
+        resolved: &Resolved,
+    ) -> Option<Tag> {
         match ty {
             Type::Boolean => Some(Tag::DEFAULT_BOOLEAN),
             Type::Integer(_) => Some(Tag::DEFAULT_INTEGER),
@@ -89,8 +111,8 @@ impl TagResolver<'_> {
             Type::String(_, Charset::Utf8) => Some(Tag::DEFAULT_UTF8_STRING),
             Type::String(_, Charset::Ia5) => Some(Tag::DEFAULT_IA5_STRING),
             Type::Null => Some(Tag::DEFAULT_NULL),
-            Type::Optional(inner) => self.resolve_type_tag_limited(inner, depth),
-            Type::Default(inner, ..) => self.resolve_type_tag_limited(inner, depth),
+            Type::Optional(inner) => self.resolve_type_tag_limited(inner, depth, resolved),
+            Type::Default(inner, ..) => self.resolve_type_tag_limited(inner, depth, resolved),
             Type::Sequence(_) => Some(Tag::DEFAULT_SEQUENCE),
             Type::SequenceOf(_, _) => Some(Tag::DEFAULT_SEQUENCE_OF),
             Type::Set(_) => Some(Tag::DEFAULT_SET),
@@ -106,7 +128,7 @@ impl TagResolver<'_> {
                     )
                     .map(|v| {
                         v.tag()
-                            .or_else(|| self.resolve_type_tag_limited(v.r#type(), depth))
+                            .or_else(|| self.resolve_type_tag_limited(v.r#type(), depth, resolved))
                     })
                     .collect::<Option<Vec<Tag>>>()?;
                 tags.sort();
@@ -118,7 +140,7 @@ impl TagResolver<'_> {
             Type::TypeReference(inner, tag) => {
                 let tag = (*tag).or_else(|| {
                     // gives up on reference cycles
-                    self.resolve_tag_limited(inner.as_str(), depth.checked_sub(1)?)
+                    self.resolve_tag_limited(inner.as_str(), depth.checked_sub(1)?, resolved)
                 });
                 if cfg!(feature = "debug-proc-macro") {
                     println!("resolved :: {}::Tag = {:?}", inner, tag);
